@@ -107,20 +107,26 @@ Theorem C01_sw_align :
 Proof. exact sw_align_valid. Qed.
 Print Assumptions C01_sw_align.
 
-(* _malign.we_align (Waterman-Eggert, all local matches): every returned triple has rows of equal
-   length, no double-gap column, and de-gapped rows that are contiguous sub-lists of the inputs.
-   (Stated for the case that the model's fuelled loop returns; that the fuel (N+1)(M+1) suffices,
-   i.e. termination of the `while True` loop, is not proved - the correspondence check compares
-   the model's result, which would be the error value, with the implementation on every case.) *)
-Theorem C01_we_align_partial :
-  forall (A B : list Z) (sc : list (Z * Z * Q)) (gap : Q) out,
-    we_align A B sc gap = Some out ->
-    Forall (fun t => let '(a, b, _) := t in
-                     length a = length b /\ no_double_gap a b /\
-                     (exists pre suf, A = pre ++ degap a ++ suf) /\
-                     (exists pre suf, B = pre ++ degap b ++ suf)) out.
-Proof. exact we_align_valid. Qed.
-Print Assumptions C01_we_align_partial.
+(* _malign.we_align (Waterman-Eggert, all local matches): the outer `while True` loop terminates
+   (the model's fuel (N+1)(M+1) is sufficient: each round zeroes the tracer cell it started from),
+   and every returned triple has rows of equal length, no double-gap column, and de-gapped rows
+   that are contiguous sub-lists of the inputs. *)
+Theorem C01_we_align :
+  forall (A B : list Z) (sc : list (Z * Z * Q)) (gap : Q),
+    exists out, we_align A B sc gap = Some out /\
+      Forall (fun t => let '(a, b, _) := t in
+                       length a = length b /\ no_double_gap a b /\
+                       (exists pre suf, A = pre ++ degap a ++ suf) /\
+                       (exists pre suf, B = pre ++ degap b ++ suf)) out.
+Proof.
+  exact (fun A B sc gap =>
+    match we_align A B sc gap as r return (r <> None -> (forall out, r = Some out -> _) ->
+        exists out, r = Some out /\ _) with
+    | Some out => fun _ V => ex_intro _ out (conj eq_refl (V out eq_refl))
+    | None => fun T _ => False_ind _ (T eq_refl)
+    end (we_align_total A B sc gap) (we_align_valid A B sc gap)).
+Qed.
+Print Assumptions C01_we_align.
 
 (* the checker that runs on implementation outputs decides validity *)
 Theorem C01_checker_sound :
